@@ -424,6 +424,8 @@ class Machine:
                 ptr += 1
             if ptr == n:
                 return Result(OK, ptr, events)
+            if ptr > n:
+                raise Broken("start pointer advanced past the end of the chunk (ptr=%d, chunk length %d)" % (ptr, n))
             inval = data[ptr]
             seen.clear()
 
